@@ -68,4 +68,6 @@ def c_dump(program, includes=(), libs=()):
     return r.stdout
 
 
-from . import extractors  # noqa: E402,F401  (registers the extractors)
+import glob as _glob, importlib as _il  # noqa: E402
+for _f in sorted(_glob.glob(os.path.join(os.path.dirname(__file__), "extractors*.py"))):
+    _il.import_module("ltv." + os.path.basename(_f)[:-3])  # registers the extractors
